@@ -438,6 +438,8 @@ def oracle_raw(R):
     s = R.schema
     if R.status == "gen-fail" and re.search(r"characters long; \S*exp2cxx supports at most \d+", R.detail):
         return []      # exp2cxx's documented identifier-length limit, refused with a diagnostic: outside its supported subset
+    if R.status == "gen-fail" and re.search(r"schema name \S+ is a C\+\+ keyword; \S*exp2cxx uses the schema name as a namespace name", R.detail):
+        return []      # refused with a diagnostic (fix C02-12): a schema named like a C++ keyword cannot become a namespace
     if R.status == "gen-fail":
         return [("generator-fails", "exp2cxx fails on a schema check-express accepts: " + R.detail[-300:], None)]
     if R.status == "compile-fail":
